@@ -89,7 +89,8 @@ def accessors(ck):
     add('int', 1, 's', const=True)
     add('S_cs', 1, 'c', const=True)
     if not ck.quick:
-        for dt in scal + c17ref.STRUCT_ORDER:
+        # the structs with multi-digit extents / counts are costly per element: contiguous and legacy forms for three of them only
+        for dt in scal + [d for d in c17ref.STRUCT_ORDER if d not in c17ref.WIDE_ORDER] + ['P_w3', 'S_w5', 'S_run']:
             add(dt, 1, 'c')
             add(dt, 1, 's', legacy=True)
         for dt in ('unsigned char', 'short', 'float', 'double complex', 'P_id', 'S_nest', 'S_arr', 'S_mix'):
@@ -223,12 +224,32 @@ def matching_format(dt, rng):
 
 
 ALL_CODES = list('cbB?hHiIlLqQfdgOP') + ['Zf', 'Zd', 's', 'p', 'e', 'n', 'N']
+NAME_RE = re.compile(r':[^:]*:')
+# numbers of two and more digits for inserted / random counts: every digit in a non-leading position, round values, all-nines
+MULTI_DIGIT = [10, 11, 12, 13, 14, 15, 16, 17, 18, 19, 20, 29, 40, 64, 90, 99, 100, 101, 109, 119, 128, 190, 199, 256, 999, 1000]
 
 
 def mutate_format(fmt, rng):
     """near-miss of a matching format; returns (text, mutation kind)"""
-    kind = rng.choice(['code', 'code', 'pad+', 'pad-', 'swap', 'count', 'endian', 'endian', 'dup', 'drop', 'arraydim', 'truncate', 'brace', 'structcount'])
-    codes = [m for m in re.finditer(r'Z[fdg]|[cbB?hHiIlLqQfdgsp]', fmt)]
+    kind = rng.choice(['code', 'code', 'pad+', 'pad-', 'swap', 'count', 'endian', 'endian', 'dup', 'drop', 'arraydim', 'truncate', 'brace', 'structcount',
+                       'digits', 'digits'])
+    codes = [m for m in re.finditer(r'Z[fdg]|[cbB?hHiIlLqQfdgsp]', NAME_RE.sub(lambda m: '#' * len(m.group()), fmt))]
+    if kind == 'digits':
+        # one digit of a repeat count / pad count / array extent inserted, deleted or replaced (field names masked)
+        nums = [m for m in re.finditer(r'[0-9]+', NAME_RE.sub(lambda m: '#' * len(m.group()), fmt))]
+        if nums:
+            m = rng.choice(nums)
+            t = m.group()
+            op = rng.choice(['ins', 'del', 'rep'] if len(t) > 1 else ['ins', 'rep'])
+            i = rng.randrange(len(t) + (op == 'ins'))
+            if op == 'ins':
+                t2 = t[:i] + rng.choice('0123456789' if i else '123456789') + t[i:]
+            elif op == 'del':
+                t2 = (t[:i] + t[i + 1:]).lstrip('0') or '0'
+            else:
+                t2 = t[:i] + rng.choice([ch for ch in ('0123456789' if i else '123456789') if ch != t[i]]) + t[i + 1:]
+            if int(t2) != int(t) and int(t2) <= 4000:
+                return fmt[:m.start()] + t2 + fmt[m.end():], 'number-digit-changed'
     if kind == 'code' and codes:
         m = rng.choice(codes)
         return fmt[:m.start()] + rng.choice(ALL_CODES) + fmt[m.end():], 'code-changed'
@@ -247,7 +268,7 @@ def mutate_format(fmt, rng):
             return fmt[:ma.start()] + mb.group() + fmt[ma.end():mb.start()] + ma.group() + fmt[mb.end():], 'items-swapped'
     if kind == 'count' and codes:
         m = rng.choice(codes)
-        return fmt[:m.start()] + str(rng.choice([0, 2, 3, 7])) + fmt[m.start():], 'count-inserted'
+        return fmt[:m.start()] + str(rng.choice([0, 2, 3, 7, rng.choice(MULTI_DIGIT)])) + fmt[m.start():], 'count-inserted'
     if kind == 'structcount' and 'T{' in fmt:
         i = rng.choice([m.start() for m in re.finditer(r'T\{', fmt)])
         if i == 0 or not fmt[i - 1].isdigit():
@@ -284,13 +305,13 @@ def random_format(rng, depth=0):
         if w < 0.25 and depth < 2:
             out.append(('%d' % rng.randint(1, 3) if rng.random() < 0.3 else '') + 'T{' + random_format(rng, depth + 1) + '}')
         elif w < 0.35:
-            out.append('%dx' % rng.randint(1, 4) if rng.random() < 0.5 else 'x')
+            out.append('%dx' % (rng.randint(1, 4) if rng.random() < 0.7 else rng.choice(MULTI_DIGIT)) if rng.random() < 0.5 else 'x')
         else:
             c = rng.choice(ALL_CODES)
             if rng.random() < 0.15:
-                c = '(%s)%s' % (','.join(str(rng.randint(1, 3)) for _ in range(rng.randint(1, 2))), c)
+                c = '(%s)%s' % (','.join(str(rng.randint(1, 3) if rng.random() < 0.7 else rng.choice(MULTI_DIGIT[:16])) for _ in range(rng.randint(1, 2))), c)
             elif rng.random() < 0.25:
-                c = '%d%s' % (rng.randint(1, 4), c)
+                c = '%d%s' % (rng.randint(1, 4) if rng.random() < 0.7 else rng.choice(MULTI_DIGIT), c)
             out.append(c)
         if rng.random() < 0.2:
             out.append(':f%d:' % rng.randint(0, 9))
@@ -308,7 +329,8 @@ def layout(acc, rng, itemsize):
         nd = nd + rng.choice([-1, 1]) if nd > 1 else 2
         shape = tuple(rng.randint(1, 3) for _ in range(nd))
         return shape, None, 'ndim-wrong'
-    shape = tuple(rng.choice([0, 1, 2, 3, 3, 4]) for _ in range(nd))
+    # items of several KB (structs with four-digit array extents): fewer of them, reading and signing every element dominates
+    shape = tuple(rng.choice([0, 1, 2, 3, 3, 4] if itemsize <= 2048 else [0, 1, 1, 2]) for _ in range(nd))
     c_strides = []
     s = itemsize
     for d in reversed(shape):
@@ -401,6 +423,14 @@ NP_SPECS = {
     'S_cz': "np.dtype([('z', 'c16'), ('f', 'f4')], align=True)", 'S_one': "np.dtype([('q', 'u8')], align=True)",
     'S_rep': "np.dtype([(n, np.dtype([('a', 'i4'), ('b', 'f8')], align=True)) for n in 'pqr'], align=True)",
 }
+
+
+NP_CODE = {'signed char': 'i1', 'unsigned char': 'u1', 'short': 'i2', 'unsigned short': 'u2', 'int': 'i4', 'unsigned int': 'u4',
+           'long long': 'i8', 'unsigned long long': 'u8', 'float': 'f4', 'double': 'f8'}
+for _n in c17ref.WIDE_ORDER:        # NumPy spells the array members '(19,)h' and the gaps '<n>x'
+    _packed, _fields = c17ref.STRUCT_SPECS[_n]
+    NP_SPECS[_n] = 'np.dtype([%s]%s)' % (', '.join('(%r, %r, %r)' % (f, NP_CODE[t], tuple(dims)) if dims else '(%r, %r)' % (f, NP_CODE[t])
+                                                   for f, t, dims in _fields), '' if _packed else ', align=True')
 
 
 def real_exporter_cases(ck, acc, rng, n):
